@@ -23,6 +23,9 @@ pub mod server;
 pub mod session;
 /// Utility modules (error, auth, TLS, etc.)
 pub mod util;
+/// Verification hooks (only with feature `verif`)
+#[cfg(feature = "verif")]
+pub mod verif;
 
 pub use client::*;
 pub use padding::*;
